@@ -188,9 +188,20 @@ static uint64_t xw_op(void *obj, int k)
 	}
 }
 
+/* ------------------------------------------------------------------ allocation failure inside sqfs_copy (linked with -Wl,--wrap=malloc,calloc,realloc) */
+static long fail_at = -1, alloc_count;
+static int fail_hit;
+void *__real_malloc(size_t n);
+void *__real_calloc(size_t a, size_t b);
+void *__real_realloc(void *p, size_t n);
+static int fail_now(void) { if (fail_at >= 0 && ++alloc_count == fail_at) { fail_hit = 1; return 1; } return 0; }
+void *__wrap_malloc(size_t n) { return fail_now() ? NULL : __real_malloc(n); }
+void *__wrap_calloc(size_t a, size_t b) { return fail_now() ? NULL : __real_calloc(a, b); }
+void *__wrap_realloc(void *p, size_t n) { return fail_now() ? NULL : __real_realloc(p, n); }
+
 /* ------------------------------------------------------------------ exploration */
 static kind_t K;
-static unsigned long long n_hist, n_ops, n_bad;
+static unsigned long long n_hist, n_ops, n_bad, n_failcopy;
 static char first_bad[512];
 
 #define MAXP 3
@@ -251,6 +262,37 @@ static void run_case(const int *pre, int np, const int *who, const int *pop, int
 	}
 	K.drop(second);
 	n_hist++;
+}
+
+/* for every k: the k-th allocation made inside the copy operation fails. The original must go on answering like a fresh object with the
+ * same history and must be releasable; the shared file / compressor reference counts are compared at the very end. */
+static void run_failcopy(const int *pre, int np)
+{
+	for (long k = 1; k < 64; ++k) {
+		void *o = K.make();
+		if (o == NULL) return;
+		for (int i = 0; i < np; ++i) K.op(o, pre[i]);
+		alloc_count = 0; fail_hit = 0; fail_at = k;
+		void *c = K.copy(o);
+		fail_at = -1;
+		if (!fail_hit) { if (c) K.drop(c); K.drop(o); return; }
+		n_failcopy++;
+		if (c != NULL) K.drop(c);      /* the copy got along without that allocation */
+		for (int j = 0; j < K.nops; ++j) {
+			uint64_t a = K.op(o, j);
+			void *r = K.make();
+			uint64_t b = 0;
+			for (int i = 0; i < np; ++i) b = K.op(r, pre[i]);
+			for (int z = 0; z <= j; ++z) b = K.op(r, z);
+			K.drop(r);
+			if (a != b) {
+				char w[96];
+				snprintf(w, sizeof(w), "original misbehaves after a copy attempt whose allocation #%ld failed", k);
+				report(w, pre, np, NULL, NULL, 0, 200 + j);
+			}
+		}
+		K.drop(o);
+	}
 }
 
 int main(int argc, char **argv)
@@ -335,6 +377,7 @@ int main(int argc, char **argv)
 	for (int np = 0; np <= P; ++np) {
 		for (int i = 0; i < np; ++i) pre[i] = 0;
 		for (;;) {
+			run_failcopy(pre, np);
 			for (int nq = 0; nq <= Q; ++nq) {
 				/* all (who, op) sequences of length nq */
 				long total = 1;
@@ -358,8 +401,8 @@ int main(int argc, char **argv)
 		report(b, NULL, 0, NULL, NULL, 0, -3);
 	}
 	drop_readers(&deps);
-	printf("{\"kind\":\"%s\",\"ops\":%d,\"pre_depth\":%d,\"post_depth\":%d,\"histories\":%llu,\"ops_executed\":%llu,\"mismatches\":%llu,\"first\":\"%s\"}\n",
-	       kind, K.nops, P, Q, n_hist, n_ops, n_bad, n_bad ? first_bad : "");
+	printf("{\"kind\":\"%s\",\"ops\":%d,\"pre_depth\":%d,\"post_depth\":%d,\"histories\":%llu,\"ops_executed\":%llu,\"failed_copies\":%llu,\"mismatches\":%llu,\"first\":\"%s\"}\n",
+	       kind, K.nops, P, Q, n_hist, n_ops, n_failcopy, n_bad, n_bad ? first_bad : "");
 	fflush(stdout);
 	return n_bad ? 1 : 0;
 }
